@@ -250,6 +250,7 @@ impl Property for C20 {
             sc.read_plan.truncate(400);
         }
         add_neutral_xargs_opts(rng, &mut sc.opts);
+        add_ambient_xargs(rng, &mut sc);
         sc
     }
 
